@@ -23,6 +23,11 @@ CLAIMED = {
             "state with the key expired-but-still-stored equal those with the key missing (and read commands never list it); per-command TTL rules (30 commands: in-place "
             "modifiers keep, replacing commands clear); EXPIRE/PEXPIRE/EXPIREAT/PEXPIREAT x NX/XX/GT/LT with a symbolic argument (|n| < 3000 units around now) and exact "
             "TTL/PTTL/EXPIRETIME/PEXPIRETIME read-back; visibility 1 ms before / after the deadline; unrepresentable TTLs are refused", "5/C07"),
+    "C08": ("reduction to a per-command obligation decided by bounded symbolic execution: for 147 command templates x 5 key types the real command runs under a lock-set "
+            "monitor over store memory (everything reachable from the data store set at command entry plus what the command publishes); every path must touch store "
+            "memory only while a mutex is held and only inside one section of the database mutex (strict two-phase with one lock => every concurrent history is "
+            "serialisable in lock-acquisition order); writes into the shared start-up tables are flagged as well. A violation is confirmed natively by running the command "
+            "concurrently with writers of the same key under the Go race detector", "5/C08"),
     "C09": ("bounded symbolic model checking of transaction programs (1..4 steps quick, 5 thorough; each step a symbolic choice among MULTI, EXEC, DISCARD, WATCH, UNWATCH, a "
             "valid write, a command failing at run time, commands rejected at queue time (unknown name, bad arity) and a blocking pop) through the real dispatcher against the "
             "multi.c state machine: reply class of every step, queue/normal mode, no effect while queueing (observer connection between steps), one reply per queued command, "
@@ -61,6 +66,11 @@ CLAIMED = {
     "C15": ("bounded symbolic model checking of resp3To2 on reply trees of every RESP3 kind (depth <= 1 quick / 2 thorough, symbolic leaves) against the canonical "
             "down-conversion, RESP2-only output types and one-frame serialisation; HELLO for all int64 protocol versions incl. frame condition on a second connection; "
             "30 commands of every reply shape executed on identical data under RESP2 and RESP3 with reply2 = downconvert(reply3)", "5/C15"),
+    "C16": ("lock-set discipline decided by bounded symbolic execution, every report confirmed by the Go race detector: each session / introspection command (25 commands, "
+            "in and out of MULTI), connection tear-down, and the 147 data-command templates run under a monitor that logs every access to per-connection, global and store "
+            "memory with the set of mutexes held; two accesses to one field from different connections with disjoint lock sets and at least one write are a candidate pair; "
+            "each pair is run concurrently (300 iterations on two connections) in a -race build and only a detector report is a violation; unconfirmed candidates are "
+            "listed in the evidence. Sufficient, not necessary: races the bounded command shapes do not reach, and goroutines of the socket layer and the saver, are outside the claim", "5/C16"),
     "C17": ("inductive argument, each lemma decided on the real code: hashToIndex(h,2n)>>1 == hashToIndex(h,n) for every 64-bit hash and n = 16..256 (growth splits bucket i "
             "into 2i,2i+1); one call of dictScanUnlocked on tables of 16 and 32 buckets (occupancy patterns, tracked bucket, every start position, arbitrary cursor bits above "
             "the mask, COUNT 1..3): progress, nothing between old and new position skipped, nothing invented, and the returned cursor decodes to 2x / half the position after "
@@ -75,6 +85,8 @@ CLAIMED = {
             "after any number of effects loads as the old or the new snapshot; and (L2 dirty gate) for 147 command templates x 5 key types: state changed => store marked "
             "dirty. Counterexamples replay natively on real files with real gob", "5/C19"),
 }
+
+CATEGORY = {"C16": "other"}
 
 NOT_APPLICABLE = {
     "C20": "close latency, port release/re-bind and goroutine lifetimes are properties of net.Listen/Accept, OS sockets and wall-clock bounds; there is no data-dependent computation to encode, a solver verdict would be a verdict about stubs (DESIGN.md 5/C20)",
@@ -93,7 +105,7 @@ def main():
             "evidence_file": "/verif/evidence/%s.json" % pid,
             "replay_cmd_template": "./check replay {path}",
             "engine": "gosym",
-            "level_claimed": {"category": "model_checking", "text": text, "design_ref": ref},
+            "level_claimed": {"category": CATEGORY.get(pid, "model_checking"), "text": text, "design_ref": ref},
             "level_note": LEVEL_NOTE,
             "technique": TECH,
         })
